@@ -6,6 +6,7 @@ import (
 	"encoding/json"
 	"fmt"
 	"reflect"
+	"runtime"
 	"runtime/debug"
 	"strings"
 
@@ -81,7 +82,7 @@ func bytesOfIndex(i uint64, n int) []byte {
 }
 
 func runC09(r *engine.Run) {
-	r.Rule = "E1 enumeration per decoder entry point, oracle: returns a value or an error, no panic (recovered and reported per input), no hang (watchdog), input buffer and its spare capacity byte-identical afterwards, stream decoders make progress (#commands <= len(input)). Frame decode: control-byte product (MHDR x length 0..40 x FCtrl x byte1 x FPort byte x filler) plus lengths up to 512 with four fillers and 17 lengths around 255x16 bytes and 2^16 (the payload cipher's 8-bit block counter, 16-bit length fields), followed on accepted frames by FOpts/FRMPayload command decode and decrypt-then-decode with two keys; base64: all strings of length <= 4 over a 10-symbol alphabet; MAC command stream decoders: all byte strings of length <= 3 x direction x 2 registry states, lengths 4..32 with all 65536 leading byte pairs; decrypt-then-decode with plaintext ranging over all 2-byte strings; join-accept decrypt over ciphertext lengths 0..40 and plaintext control bytes; CFList lengths 0..20 x 256 types; MACCommand CID x direction x length 0..8; the four application-layer command decoders: all strings <= 2 bytes, 3-byte strings (quick: 18 leading CIDs; thorough: all), (CID, second byte) all 65536 x lengths 0..40 x 2 fillers; backend text/JSON unmarshalers: all strings of length <= 5 over a 14-symbol alphabet, well-formed text of every length 0..130 in 8 patterns x {plain, 0x} (also through json.Unmarshal into a payload struct) and every payload struct with each field (and each pair, thorough) set to each of 10 JSON atoms. Non-trivial: the decoder returned a value (not an error)."
+	r.Rule = "E1 enumeration per decoder entry point, oracle: returns a value or an error, no panic (recovered and reported per input), no hang (watchdog), input buffer and its spare capacity byte-identical afterwards, stream decoders make progress (#commands <= len(input)). Frame decode: control-byte product (MHDR x length 0..40 x FCtrl x byte1 x FPort byte x filler) plus lengths up to 512 with four fillers and 17 lengths around 255x16 bytes and 2^16 (the payload cipher's 8-bit block counter, 16-bit length fields), followed on accepted frames by FOpts/FRMPayload command decode and decrypt-then-decode with two keys; base64: all strings of length <= 4 over a 10-symbol alphabet; MAC command stream decoders: all byte strings of length <= 3 x direction x 2 registry states, lengths 4..32 with all 65536 leading byte pairs; decrypt-then-decode with plaintext ranging over all 2-byte strings; join-accept decrypt over ciphertext lengths 0..40 and plaintext control bytes; CFList lengths 0..20 x 256 types; MACCommand CID x direction x length 0..8; the four application-layer command decoders: all strings <= 2 bytes, 3-byte strings (quick: 18 leading CIDs; thorough: all), (CID, second byte) all 65536 x lengths 0..40 x 2 fillers; backend text/JSON unmarshalers: all strings of length <= 5 over a 14-symbol alphabet, well-formed text of every length 0..130 in 8 patterns x {plain, 0x} (also through json.Unmarshal into a payload struct) and every payload struct with each field (and each pair, thorough) set to each of 10 JSON atoms. Cost: for every text decoder, the frame text decoder, JSON into a payload struct and the frame + MAC-command stream decoder, bytes allocated on inputs of 16k / 32k / 64k characters (four patterns) may not more than triple per doubling (a deterministic proxy for 'time linear in the input'). Non-trivial: the decoder returned a value (not an error)."
 	frameHistory(r, 2)
 	r.Rule += " E3 (schedules): the FOpts and FRMPayload MAC-command decoders against two concurrent registrations of proprietary commands, every interleaving (preemption-bounded and unbounded with state-key pruning), sync.RWMutex modelled with pending writers excluding new readers: every thread returns, no deadlock."
 	mergeSchedSummary(r, "C09")
@@ -579,6 +580,56 @@ func runC09(r *engine.Run) {
 			js := []byte(`{"DevEUI":"` + strings.Replace(prefix+body, `"`, "", -1) + `","DevAddr":"` + strings.Replace(prefix+body, `"`, "", -1) + `"}`)
 			c09Total(c, "json.Unmarshal(JoinReqPayload)", js, func(in []byte) error { var v backend.JoinReqPayload; return json.Unmarshal(in, &v) })
 		}
+	})
+	// cost grows linearly with the input: bytes allocated while decoding inputs of 16k, 32k and 64k
+	// characters (allocation volume is a deterministic function of the code path, unlike wall time);
+	// doubling the input may not more than triple it once it is above 4 MiB. One worker, so that
+	// nothing else allocates meanwhile.
+	costDecs := append([]struct {
+		name string
+		fn   func(in []byte) error
+	}{}, textDecs...)
+	costDecs = append(costDecs, struct {
+		name string
+		fn   func(in []byte) error
+	}{"PHYPayload.UnmarshalText", func(in []byte) error { var p lorawan.PHYPayload; return p.UnmarshalText(in) }}, struct {
+		name string
+		fn   func(in []byte) error
+	}{"json.Unmarshal(JoinReqPayload.DevEUI)", func(in []byte) error {
+		var v backend.JoinReqPayload
+		return json.Unmarshal(append(append([]byte(`{"DevEUI":"`), in...), '"', '}'), &v)
+	}}, struct {
+		name string
+		fn   func(in []byte) error
+	}{"PHYPayload.UnmarshalBinary+DecodeFRMPayloadToMACCommands", func(in []byte) error {
+		b := append([]byte{0x40, 1, 2, 3, 4, 0, 1, 0, 0}, in...)
+		b = append(b, 1, 2, 3, 4)
+		var p lorawan.PHYPayload
+		if err := p.UnmarshalBinary(b); err != nil {
+			return err
+		}
+		return p.DecodeFRMPayloadToMACCommands()
+	}})
+	costPatterns := []string{"0", "a5", "0-", "02"}
+	r.PartWorkers("cost/linear-in-input", []string{fmt.Sprintf("decoder:%d", len(costDecs)), fmt.Sprintf("input pattern:%d", len(costPatterns)), "sizes 16k,32k,64k (inner)"}, uint64(len(costDecs)*len(costPatterns)), 1, func(c *engine.Case) {
+		d := costDecs[c.Index%uint64(len(costDecs))]
+		pat := costPatterns[c.Index/uint64(len(costDecs))]
+		c.Eval()
+		c.NonTrivial()
+		var ms runtime.MemStats
+		alloc := func(n int) uint64 {
+			in := []byte(strings.Repeat(pat, n/len(pat)))
+			runtime.ReadMemStats(&ms)
+			before := ms.TotalAlloc
+			d.fn(in)
+			runtime.ReadMemStats(&ms)
+			return ms.TotalAlloc - before
+		}
+		a1, a2, a3 := alloc(16384), alloc(32768), alloc(65536)
+		if a3 > 4<<20 && (a3 > 3*a2+(1<<20) || a2 > 3*a1+(1<<20)) {
+			c.Fail("cost/super-linear/"+d.name, fmt.Sprintf("%s on %q repeated: %d bytes allocated for 16k characters, %d for 32k, %d for 64k (more than tripling per doubling)", d.name, pat, a1, a2, a3), nil)
+		}
+		c.Outcome("cost/linear")
 	})
 	r.PartDims("backend/text", []string{fmt.Sprintf("strings of length 0..5 over 14 symbols:%d", nStr), "decoder:9 (inner)"}, nStr, func(c *engine.Case) {
 		i := c.Index
